@@ -4,6 +4,8 @@ Utilities for working with HREFs.
 
 from typing import List
 
+from urllib.parse import quote
+
 
 def parent(href: str) -> str:
     """
@@ -19,7 +21,8 @@ def parent(href: str) -> str:
 
 def relative(from_href: str, to_href: str) -> str:
     """
-    Create a relative path which links from ``from_href`` to ``to_href``.
+    Create a relative (percent-encoded) URL which links from the page at path
+    ``from_href`` to the page at path ``to_href``.
 
     Example::
 
@@ -38,4 +41,6 @@ def relative(from_href: str, to_href: str) -> str:
     up_to_common = [".."] * (len(from_parts) - len(common_parts))
     down_to_new = to_parts[len(common_parts) :]
 
-    return "/".join(up_to_common + down_to_new)
+    # NB: The result is used verbatim as a URL so special characters in file
+    # and directory names (e.g. '#', '?' and '%') must be percent-encoded.
+    return quote("/".join(up_to_common + down_to_new))
